@@ -179,7 +179,8 @@ CHECKS = {
         dict(prop="C18.lists", harness="table_pbt", quick=dict(count=4000, workers=8), thorough=dict(count=200000, workers=16),
              essential=_V2_SCHEMAS + ["playlist:add", "playlist:update", "playlist:remove", "playlist:nonexistent", "entity:add_back",
                                       "entity:clear", "entity:remove-non-last", "playlist:add-before-sibling", "playlist:move-reorder",
-                                      "playlist:move-reparent", "playlist:move+fields", "changelog:add", "information:played-indicator"]),
+                                      "playlist:move-reparent", "playlist:move+fields", "changelog:add", "information:played-indicator",
+                                      "entity:foreign-uuid", "entity:same-track-two-databases"]),
     ]),
     "C19": dict(level="exploration", parts=[
         dict(prop="REG", harness="api_pbt", quick=dict(count=0, workers=1), thorough=dict(count=0, workers=1)),  # regression scenarios
@@ -350,7 +351,8 @@ RULES = {
            "a schema lacks throw unsupported_operation; accessors and remove() on a nonexistent row must throw. lists part: playlist_table "
            "add (end / before a sibling) / get / update (in place, or moving to another sibling position or parent while other fields change) / "
            "remove, with next_list_id, child_ids(), root_ids(), descendant_ids() and all_ids() checked against the model; change_log_table add / all / after / last (offered exactly on schemas before 2.20.3) and "
-           "information_table update_current_played_indicator / get against what was written; and playlist_entity_table add_back/get/remove/clear/track_ids against an ordered model, remove() of unknown "
+           "information_table update_current_played_indicator / get against what was written; and playlist_entity_table add_back/get/get_for_list/remove/clear/track_ids against an ordered model "
+           "of (track, database uuid, membership reference, entity id) - one entity in four belongs to a foreign database uuid, so the same track id can occur once per database in a list - remove() of unknown "
            "rows must throw. Non-trivial = a row with >= 40 of 49 columns populated was written (track part) / >= 2 lists or a non-last "
            "entity removal (lists part).",
     "C19": "Each case = (sample_count, sample_rate) decoded from rapidcheck-generated choices: boundary tables (0, 1, 209..211, "
